@@ -602,7 +602,7 @@ func ruleProvContent(c *Ctx, r *Rep) {
 		}
 		for _, ci := range callsIn(fn) {
 			f := ci.Common().StaticCallee()
-			if f == nil || !strings.HasSuffix(f.Pkg.Pkg.Path(), "generator/cert") {
+			if f == nil || !strings.HasSuffix(fnPkgPath(f), "generator/cert") {
 				continue
 			}
 			for i, p := range f.Params {
